@@ -190,6 +190,12 @@ def property_checks(inp):
     A(("azimuthal average of a constant image", float(numpy.abs(psf.azimuthal_average(numpy.full((M, M), cst)) - cst).max() / cst), 1e-12))
     av = psf.azimuthal_average(d)
     A(("azimuthal average within [min, max]", float(max(av.max() - d.max(), d.min() - av.min())), 1e-12))
+    # images need not be positive (background-subtracted frames, log-scaled PSFs, phase maps): the average is linear
+    for nm_, dn_ in (("negative constant", numpy.full((M, M), -cst)), ("sign-changing image", d - d.mean()), ("negated image", -d), ("log-scaled image", numpy.log10(d))):
+        avn = psf.azimuthal_average(dn_)
+        A(("azimuthal average of a %s within [min, max]" % nm_, float(max(avn.max() - dn_.max(), dn_.min() - avn.min())), 1e-12))
+    A(("azimuthal average is linear: avg(a - mean) = avg(a) - mean, avg(-a) = -avg(a)",
+       float(max(numpy.abs(psf.azimuthal_average(d - d.mean()) - (av - d.mean())).max(), numpy.abs(psf.azimuthal_average(-d) + av).max())), 1e-12))
     if M % 2 == 0:
         xs, ee = psf.encircled_energy(d, eeDiameter=False)
         A(("encircled energy starts at 0", abs(float(ee[0])), 0.0))
@@ -206,6 +212,20 @@ def property_checks(inp):
             xs2, ee2 = psf.encircled_energy(d, center=cen_, eeDiameter=False)
             A(("encircled energy about a %s starts at 0, never decreases, stays within [0, 1]" % cname,
                float(max(abs(ee2[0]), (-numpy.diff(ee2)).max(), ee2.max() - 1, -ee2.min())), 1e-12))
+            # the curve against its definition, with an indicator written here: energy inside the circle of radius r about the
+            # centre, against the diameter of the disc of the same area as the enclosed pixels
+            dim_ = M // 2
+            rad_ = numpy.linspace(0, dim_ ** (1. / 1.9), 20) ** 1.9
+            jj_ = numpy.arange(2 * dim_) + 0.5
+            XX_, YY_ = numpy.meshgrid(jj_, jj_)
+            dsub = d[:2 * dim_, :2 * dim_]
+            dd_, ee_ = [0.0], [0.0]
+            for r_ in rad_:
+                ins = ((XX_ - cen_[0]) ** 2 + (YY_ - cen_[1]) ** 2) <= r_ * r_
+                dd_.append(math.sqrt(ins.sum() * 4 / math.pi)); ee_.append(float((dsub * ins).sum()))
+            ref_curve = numpy.interp(numpy.linspace(0, dim_, int(4 * dim_)), numpy.array(dd_), numpy.array(ee_) / d.sum())
+            A(("encircled energy about a %s = energy inside the circle / total, against the equivalent diameter" % cname,
+               float(numpy.abs(ee2 - ref_curve).max()) if ee2.shape == ref_curve.shape else float("inf"), 1e-12))
             dia2 = psf.encircled_energy(d, fraction=fr, center=cen_)
             A(("reported diameter about a %s is where the curve is closest to the fraction" % cname, abs(float(xs2[numpy.argmin(numpy.abs(ee2 - fr))]) - dia2), 0.0))
     # narrow dtypes: the same sample values give the same zoom (single-precision complex keeps its imaginary part)
